@@ -221,9 +221,11 @@ Proof.
     destruct C1 as (C11 & C12 & C13 & C14).
     apply (EF_quiet s _ [stamped s pid (AWatch (read_mask m s1)); stamped s pid (ASusp (WkChange m) (s_nextid s0))]).
     + destruct (suspend_waitchange_lg pid m (log_watch pid m s1)) as (L & _). rewrite L.
-      unfold log_watch. rewrite log_proc_log by exact E1. unfold s1 at 5. rewrite log_proc_log by exact He.
+      unfold log_watch. rewrite log_proc_log by exact E1.
+      change (s_log s1) with (s_log (log_proc pid (ASusp (WkChange m) (s_nextid s0)) s0)).
+      rewrite log_proc_log by exact He.
       unfold stamped. rewrite C11, C12, C13, C14. reflexivity.
-    + unfold suspend_waitchange, fresh_id. simpl. unfold log_watch, log_proc. rewrite !add_log_circ. reflexivity.
+    + unfold suspend_waitchange, fresh_id. cbn [s_circ set_watches set_nextid]. unfold log_watch, s1, log_proc. rewrite !add_log_circ. reflexivity.
     + destruct (suspend_waitchange_lg pid m (log_watch pid m s1)) as (_ & E & _). rewrite E.
       unfold log_watch. rewrite log_proc_err. exact E1.
     + constructor; [eexists _, _; split; [reflexivity | quiet_tac]|].
@@ -233,6 +235,34 @@ Proof.
       [repeat split | repeat split | reflexivity | repeat split | reflexivity | exact H | quiet_tac].
 Qed.
 
+Lemma log_wake_quiet : forall pid w g s, halted s = false ->
+  exists new, s_log (log_wake pid w g s) = new ++ s_log s /\ s_circ (log_wake pid w g s) = s_circ s /\
+              s_err (log_wake pid w g s) = false /\
+              Forall (fun e => exists pid a, e = stamped s pid a /\ quiet_action a) new.
+Proof.
+  intros pid w g s H. pose proof (halted_false_err s H) as He. unfold log_wake.
+  assert (W1 : exists new, s_log (log_proc pid (AWake w g) s) = new ++ s_log s /\ s_circ (log_proc pid (AWake w g) s) = s_circ s /\
+              s_err (log_proc pid (AWake w g) s) = false /\
+              Forall (fun e => exists pid a, e = stamped s pid a /\ quiet_action a) new).
+  { exists [stamped s pid (AWake w g)]. split; [apply log_proc_log; exact He|].
+    split; [unfold log_proc; apply add_log_circ|]. split; [rewrite log_proc_err; exact He|].
+    constructor; [eexists _, _; split; [reflexivity | quiet_tac] | constructor]. }
+  destruct w; try exact W1.
+  set (s1 := log_proc pid (AWake (WkChange mask) g) s).
+  assert (E1 : s_err s1 = false) by (unfold s1; rewrite log_proc_err; exact He).
+  destruct (log_proc_ctl pid (AWake (WkChange mask) g) s) as (C1 & C2 & C3 & C4). fold s1 in C1, C2, C3, C4.
+  exists [stamped s pid (AWatch (read_mask mask s1)); stamped s pid (AWake (WkChange mask) g)].
+  split; [|split; [|split]].
+  - unfold log_watch. rewrite log_proc_log by exact E1.
+    change (s_log s1) with (s_log (log_proc pid (AWake (WkChange mask) g) s)).
+    rewrite log_proc_log by exact He.
+    unfold stamped. rewrite C1, C2, C3, C4. reflexivity.
+  - unfold log_watch, s1, log_proc. rewrite !add_log_circ. reflexivity.
+  - unfold log_watch. rewrite log_proc_err. exact E1.
+  - constructor; [eexists _, _; split; [reflexivity | quiet_tac]|].
+    constructor; [eexists _, _; split; [reflexivity | quiet_tac] | constructor].
+Qed.
+
 Lemma task_head_effect : forall t s stk s', task_head t s = (stk, s') -> halted s = false -> effect s s'.
 Proof.
   intros t s stk s' E H. pose proof (halted_false_err s H) as He.
@@ -240,24 +270,8 @@ Proof.
   assert (Z : effect s s) by (apply (EF_quiet s s []); [reflexivity | reflexivity | exact He | constructor]).
   destruct t as [pid|pid w g|pid n]; simpl.
   - exact Z.
-  - assert (W : effect s (log_wake pid w g s)).
-    { unfold log_wake.
-      assert (W1 : effect s (log_proc pid (AWake w g) s)).
-      { eapply (quiet_one s s _ pid (AWake w g)); try apply same_lg_refl; try apply same_ctl_refl; try reflexivity; [exact H | quiet_tac]. }
-      destruct w; try exact W1.
-      set (s1 := log_proc pid (AWake (WkChange mask) g) s).
-      assert (E1 : s_err s1 = false) by (unfold s1; rewrite log_proc_err; exact He).
-      destruct (log_proc_ctl pid (AWake (WkChange mask) g) s) as (C1 & C2 & C3 & C4). fold s1 in C1, C2, C3, C4.
-      apply (EF_quiet s _ [stamped s pid (AWatch (read_mask mask s1)); stamped s pid (AWake (WkChange mask) g)]).
-      - unfold log_watch. rewrite log_proc_log by exact E1. unfold s1 at 5. rewrite log_proc_log by exact He.
-        unfold stamped. rewrite C1, C2, C3, C4. reflexivity.
-      - unfold log_watch, s1, log_proc. rewrite !add_log_circ. reflexivity.
-      - unfold log_watch. rewrite log_proc_err. exact E1.
-      - constructor; [eexists _, _; split; [reflexivity | quiet_tac]|].
-        constructor; [eexists _, _; split; [reflexivity | quiet_tac] | constructor]. }
-    destruct (p_fiber (get_proc pid (log_wake pid w g s))); simpl; [|exact W].
-    inversion W as [new L Ci Er Fa| | |]; subst.
-    apply (EF_quiet s _ new); assumption.
+  - destruct (log_wake_quiet pid w g s H) as (new & L & Ci & Er & Fa).
+    destruct (p_fiber (get_proc pid (log_wake pid w g s))); simpl; apply (EF_quiet s _ new); assumption.
   - destruct n; simpl; [exact Z|]. destruct (p_script (get_proc pid s)); simpl; [exact Z|].
     apply (EF_quiet s _ []); [reflexivity | reflexivity | exact He | constructor].
 Qed.
@@ -320,4 +334,446 @@ Proof.
   induction l as [|e r IH]; intros H w Hw; [destruct Hw|].
   destruct e; simpl in *; try (destruct Hw as [<-|Hw]; [reflexivity | apply IH; assumption]); try (destruct Hw; fail).
   destruct a; try discriminate; destruct Hw as [<-|Hw]; try reflexivity; apply IH; assumption.
+Qed.
+
+(* ------------------------------------------------------------------------- *)
+(** * Preservation *)
+
+Definition st_part (s : state) : Prop :=
+  (r_a (s_circ s), r_a2 (s_circ s), r_b (s_circ s)) = regs_of_log (s_log s) /\
+  pi_a (s_circ s) = pinv PA (s_log s) /\ pi_b (s_circ s) = pinv PB (s_log s) /\
+  lat_ra (s_circ s) = pinv PA (after_reeval (s_log s)) /\
+  lat_rb (s_circ s) = pinv PB (after_reeval (s_log s)) /\
+  lat_ra2 (s_circ s) = rg_a (regs_of_log (after_reeval (s_log s))) /\
+  c_out (s_circ s) = c_of_log (s_log s) /\
+  (forall w, In w (since_reeval (s_log s)) -> is_write w = true ->
+     exists ro pid a, w = LProc (s_now s) (s_phase s) (s_mt s) ro pid a).
+
+(* entries that are neither writes, nor edges, nor reevaluations *)
+Definition plain (e : entry) : Prop :=
+  is_write e = false /\ e <> LReeval /\ (forall t k r a b c, e <> LEdge t k r a b c).
+
+Lemma plain_entries : forall new l, Forall plain new ->
+  regs_of_log (new ++ l) = regs_of_log l /\ (forall p, pinv p (new ++ l) = pinv p l) /\
+  after_reeval (new ++ l) = after_reeval l /\ since_reeval (new ++ l) = new ++ since_reeval l /\
+  c_of_log (new ++ l) = c_of_log l.
+Proof.
+  intros new l F. induction F as [|e r (P1 & P2 & P3) Fr IH]; simpl app; [repeat split; reflexivity|].
+  destruct IH as (I1 & I2 & I3 & I4 & I5). repeat split.
+  - rewrite regs_cons_inert by exact P3. exact I1.
+  - intro p. rewrite pinv_cons_nowrite by exact P1. apply I2.
+  - rewrite after_cons by exact P2. exact I3.
+  - rewrite since_cons by exact P2. rewrite I4. reflexivity.
+  - rewrite c_of_log_cons by exact P2. exact I5.
+Qed.
+
+Definition same_stamp (s s' : state) : Prop := s_now s' = s_now s /\ s_phase s' = s_phase s /\ s_mt s' = s_mt s.
+Lemma same_ctl_stamp : forall s s', same_ctl s s' -> same_stamp s s'.
+Proof. intros s s' (C1 & C2 & C3 & _). repeat split; assumption. Qed.
+
+Lemma st_part_plain : forall s s' new,
+  st_part s -> s_log s' = new ++ s_log s -> Forall plain new -> s_circ s' = s_circ s -> same_stamp s s' -> st_part s'.
+Proof.
+  intros s s' new (S1 & S2 & S3 & S4 & S5 & S6 & S7 & S8) L F Ci (C1 & C2 & C3).
+  destruct (plain_entries new (s_log s) F) as (I1 & I2 & I3 & I4 & I5).
+  unfold st_part. rewrite L, Ci, I1, !I2, I3, I4, I5, C1, C2, C3. repeat split; try assumption.
+  intros w Hw Ww. apply in_app_or in Hw. destruct Hw as [Hw|Hw]; [|apply S8; assumption].
+  pose proof (proj1 (Forall_forall _ _) F w Hw) as (P1 & _). congruence.
+Qed.
+
+(* the same when the stamp changes but no write is pending *)
+Lemma st_part_restamp : forall s s' new,
+  st_part s -> s_log s' = new ++ s_log s -> Forall plain new -> s_circ s' = s_circ s -> nwb (s_log s) = true -> st_part s'.
+Proof.
+  intros s s' new (S1 & S2 & S3 & S4 & S5 & S6 & S7 & S8) L F Ci Nw.
+  destruct (plain_entries new (s_log s) F) as (I1 & I2 & I3 & I4 & I5).
+  unfold st_part. rewrite L, Ci, I1, !I2, I3, I4, I5. repeat split; try assumption.
+  intros w Hw Ww. exfalso. apply in_app_or in Hw. destruct Hw as [Hw|Hw].
+  - pose proof (proj1 (Forall_forall _ _) F w Hw) as (P1 & _). congruence.
+  - pose proof (nwb_since_nowrite _ Nw w Hw). congruence.
+Qed.
+
+Lemma log_ok_plain_app : forall two new l,
+  Forall (fun e => match e with LProc _ _ _ _ _ (ARead _ _) | LEdge _ _ _ _ _ _ | LCommit _ _ _ _ _ => False | _ => True end) new ->
+  log_ok two l -> log_ok two (new ++ l).
+Proof.
+  intros two new l F Ho. induction F as [|e r He Fr IH]; [exact Ho|].
+  simpl. split; [exact IH|]. destruct e; try exact I; try contradiction. destruct a; try exact I. contradiction.
+Qed.
+
+Lemma quiet_is_plain : forall s new,
+  Forall (fun e => exists pid a, e = stamped s pid a /\ quiet_action a) new -> Forall plain new.
+Proof.
+  intros s new F. eapply Forall_impl; [|exact F]. intros e (pid & a & -> & Qr & Qw).
+  split; [|split; [discriminate | intros; discriminate]].
+  unfold stamped, is_write. destruct a; try reflexivity. exfalso. eapply Qw. reflexivity.
+Qed.
+
+(* a process step / task head *)
+Lemma inv3_effect : forall two s s',
+  inv3 two s -> halted s = false -> effect s s' -> same_ctl s s' ->
+  (forall e, In e (s_queue s') -> ev_shape e) -> inv3 two s'.
+Proof.
+  intros two s s' [Ish Ilg Ist] H Ef Ct Sh. pose proof (halted_false_err s H) as He. specialize (Ist He).
+  destruct Ef as [new L Ci Er Fa | pid x L Ci Er | pid p v L Ci Er | pid p v L Er].
+  - constructor; [exact Sh | rewrite L; eapply log_ok_quiet; eassumption |].
+    intros _. eapply st_part_plain; [exact Ist | exact L | eapply quiet_is_plain; exact Fa | exact Ci | apply same_ctl_stamp; exact Ct].
+  - constructor; [exact Sh | |].
+    + rewrite L. simpl. split; [exact Ilg|].
+      destruct Ist as (S1 & _ & _ & _ & _ & _ & S7 & _).
+      destruct x; unfold read_log, circ_read; try (rewrite <- S1; reflexivity). exact S7.
+    + intros _. eapply (st_part_plain s s' [stamped s pid (ARead x (circ_read x (s_circ s)))]); try eassumption;
+        [|apply same_ctl_stamp; exact Ct].
+      constructor; [|constructor]. split; [reflexivity | split; [discriminate | intros; discriminate]].
+  - (* write *)
+    constructor; [exact Sh | rewrite L; simpl; split; [exact Ilg | exact I] |].
+    intros _. destruct Ist as (S1 & S2 & S3 & S4 & S5 & S6 & S7 & S8). destruct Ct as (C1 & C2 & C3 & _).
+    unfold st_part. rewrite L, Ci.
+    assert (NR : stamped s pid (AWrite p v) <> LReeval) by discriminate.
+    rewrite regs_cons_inert by (intros; discriminate). rewrite !(after_cons _ _ NR), (since_cons _ _ NR), (c_of_log_cons _ _ NR).
+    rewrite C1, C2, C3.
+    destruct p; simpl; repeat split; try assumption.
+    + intros w [<-|Hw] Ww; [eexists _, _, _; reflexivity | apply S8; assumption].
+    + intros w [<-|Hw] Ww; [eexists _, _, _; reflexivity | apply S8; assumption].
+  - constructor; [exact Sh | rewrite L; simpl; split; [split; [exact Ilg | exact I] | exact I] |].
+    intro E. congruence.
+Qed.
+
+Lemma handle_trigger_circ_log : forall cfg e s, s_err s = false ->
+  s_circ (handle_trigger cfg e s) = s_circ s /\
+  s_log (handle_trigger cfg e s) = LTrigger (e_time e) (e_pin e) (e_rising e) :: s_log s.
+Proof.
+  intros cfg e s He. unfold handle_trigger. simpl.
+  set (s0 := add_log (LTrigger (e_time e) (e_pin e) (e_rising e)) s).
+  assert (C0 : s_circ s0 = s_circ s) by apply add_log_circ.
+  assert (L0 : s_log s0 = LTrigger (e_time e) (e_pin e) (e_rising e) :: s_log s) by (unfold s0; rewrite add_log_log, He; reflexivity).
+  destruct (e_rising e); [|split; assumption].
+  assert (Q1 : forall st, s_circ (set_await (e_pin e) [] st) = s_circ st /\ s_log (set_await (e_pin e) [] st) = s_log st)
+    by (intro st; destruct (e_pin e); split; reflexivity).
+  destruct (Q1 (fold_left (fun st a => push_event (awaiter_event e a) st) (get_await (e_pin e) s0) s0)) as (Q1a & Q1b).
+  rewrite Q1a, Q1b.
+  destruct (fold_push_other (awaiter_event e) (get_await (e_pin e) s0) s0) as (_ & _ & _ & _ & _ & Lc & Ll & _).
+  rewrite Lc, Ll. split; assumption.
+Qed.
+
+Lemma micro_end_circ_log : forall s, s_err s = false ->
+  s_circ (micro_end s) = circ_reeval (s_circ s) /\
+  exists fires, s_log (micro_end s) = LMicro (s_now s) (s_phase s) (s_mt s) :: fires ++ LReeval :: s_log s
+                /\ Forall (fun e => exists p r c, e = LFire p r c) fires.
+Proof.
+  intros s He. unfold micro_end.
+  set (s2 := reevaluate s). set (s3 := check_watches s2).
+  assert (E2 : s_err s2 = false) by (unfold s2, reevaluate; rewrite add_log_err; exact He).
+  assert (L2 : s_log s2 = LReeval :: s_log s) by (unfold s2, reevaluate; rewrite add_log_log; simpl; rewrite He; reflexivity).
+  assert (C2 : s_circ s2 = circ_reeval (s_circ s)) by (unfold s2, reevaluate; rewrite add_log_circ; reflexivity).
+  destruct (check_watches_log s2 E2) as (fs & L3 & F3). fold s3 in L3.
+  destruct (check_watches_top s2) as ((T1 & T2 & T3 & _) & E3 & _). fold s3 in T1, T2, T3, E3.
+  destruct (reevaluate_top s) as ((U1 & U2 & U3 & _) & _). fold s2 in U1, U2, U3.
+  assert (C3 : s_circ s3 = s_circ s2).
+  { unfold s3, check_watches. simpl.
+    assert (G : forall l st, s_circ (fold_left (fun st w => push_event (watch_event s2 w)
+                (add_log (LFire (w_pid w) (w_refs w) (map (fun x => circ_read x (s_circ s2)) (w_mask w))) st)) l st) = s_circ st).
+    { induction l as [|w r IHl]; intro st; simpl; [reflexivity|]. rewrite IHl. simpl. apply add_log_circ. }
+    apply G. }
+  split.
+  - cbn [s_circ set_mt]. rewrite add_log_circ, C3, C2. reflexivity.
+  - exists fs. split; [|exact F3]. cbn [s_log set_mt]. rewrite add_log_log. rewrite E3, E2. rewrite L3, L2.
+    rewrite T1, T2, T3, U1, U2, U3. reflexivity.
+Qed.
+
+Lemma fires_plain : forall fires, Forall (fun e => exists p r c, e = LFire p r c) fires -> Forall plain fires.
+Proof.
+  intros fires F. eapply Forall_impl; [|exact F]. intros e (p & r & c & ->).
+  split; [reflexivity | split; [discriminate | intros; discriminate]].
+Qed.
+
+Section Inv.
+Variable cfg : config.
+Variables (procs : list script) (fiber : bool) (tb : list bool).
+Notation c0 := (boot cfg procs fiber tb, @nil frame).
+Notation reach := (treach cfg c0).
+Notation two := (c_two cfg).
+
+Lemma boot_inv3 : inv3 two (boot cfg procs fiber tb).
+Proof.
+  constructor.
+  - intros e He. apply (boot_queue cfg procs fiber tb) in He. destruct He as [->|[_ ->]]; split; reflexivity.
+  - unfold boot, reevaluate. rewrite add_log_log. destruct (c_two cfg); simpl; exact (conj I I).
+  - intros _. unfold st_part, boot, reevaluate. rewrite add_log_log, add_log_circ.
+    destruct (c_two cfg); simpl; repeat split; intros w [].
+Qed.
+
+Lemma shape_insert : forall e q, ev_shape e -> (forall x, In x q -> ev_shape x) -> forall x, In x (q_insert e q) -> ev_shape x.
+Proof. intros e q He Hq x Hx. apply q_insert_in in Hx. destruct Hx as [->|Hx]; [exact He | apply Hq; exact Hx]. Qed.
+
+Lemma reach_inv3 : forall c, reach c -> inv3 two (fst c).
+Proof.
+  induction 1 as [|c c' R IH T]; [exact boot_inv3|].
+  pose proof IH as IH0. destruct IH as [Ish Ilg Ist].
+  inv_tstep T; cbn [fst] in *.
+  - (* process step *)
+    pose proof (step_frame_spec _ _ _ _ _ Hsf) as F.
+    pose proof (step_frame_ctl cfg f s) as C. rewrite Hsf in C. cbn [snd] in C.
+    apply (inv3_effect two s s' IH0 Hh (frame_step_effect cfg f s s' F Hh) C).
+    destruct (frame_step_bk cfg f s s' F) as [Q|pid q Q|pid c ph Q|pid m Q|pid Q]; rewrite Q; try exact Ish.
+    apply shape_insert; [exact I | exact Ish].
+  - pose proof (task_head_ctl t (set_ready r s)) as C. rewrite Hth in C. cbn [snd] in C.
+    pose proof (task_head_bk t (set_ready r s)) as B. rewrite Hth in B. cbn [snd] in B. destruct B as (Q & _).
+    assert (I0 : inv3 two (set_ready r s)) by (destruct IH0; constructor; assumption).
+    apply (inv3_effect two (set_ready r s) s' I0 Hh (task_head_effect t (set_ready r s) stk s' Hth Hh) C).
+    rewrite Q. exact Ish.
+  - (* event *)
+    destruct (pop_event_queue s e s1 Hpop) as (e2 & rr & Qc & _ & _ & _ & _ & _ & Ci1 & _).
+    destruct (pop_event_top _ _ _ Hpop) as (((P1 & P2 & P3 & P4) & PE & PO & PR) & PL).
+    destruct (pop_event_stamp s e s1 Hpop Htm) as (St1 & St2 & St3).
+    pose proof (halted_false_err s Hh) as He. specialize (Ist He).
+    assert (Qin : forall x, In x (s_queue s) <-> x = e \/ In x (s_queue s1)).
+    { intro x. destruct Qc as [Q|(Q & Q1 & _)]; rewrite Q; [|rewrite Q1]; simpl; intuition auto. }
+    assert (She : ev_shape e) by (apply Ish; apply Qin; left; reflexivity).
+    assert (Sh1 : forall x, In x (s_queue s1) -> ev_shape x) by (intros x Hx; apply Ish; apply Qin; right; exact Hx).
+    assert (St0 : st_part s1).
+    { unfold st_part. rewrite Ci1, PL, P1, P2, P3. exact Ist. }
+    assert (He1 : s_err s1 = false) by congruence.
+    unfold event_head. unfold ev_shape in She. destruct (e_type e) eqn:Ty.
+    + (* trigger *)
+      destruct (handle_trigger_circ_log cfg e s1 He1) as (Ci & L).
+      destruct (handle_trigger_top cfg e s1) as (Ct & _).
+      constructor.
+      * intros x Hx. apply handle_trigger_queue in Hx. destruct Hx as [Hx|[->|[->|(_ & Hx)]]].
+        -- apply Sh1; exact Hx.
+        -- unfold ev_shape. simpl. exact She.
+        -- unfold ev_shape. simpl. split; [apply She | reflexivity].
+        -- apply in_map_iff in Hx. destruct Hx as (a & <- & _). exact I.
+      * rewrite L, PL. simpl. split; [exact Ilg | exact I].
+      * intros _. eapply (st_part_plain s1 _ [LTrigger (e_time e) (e_pin e) (e_rising e)]); [exact St0 | exact L | | exact Ci | apply same_ctl_stamp; exact Ct].
+        constructor; [|constructor]. split; [reflexivity | split; [discriminate | intros; discriminate]].
+    + (* resume *)
+      constructor; [exact Sh1 | simpl; rewrite PL; exact Ilg | intros _; exact St0].
+    + (* value change *)
+      destruct She as (Sp & Sm).
+      unfold handle_value_change.
+      set (s2 := if e_rising e then set_circ (circ_advance two (e_pin e) (s_circ s1)) s1 else s1).
+      assert (E2 : s_err s2 = false) by (unfold s2; destruct (e_rising e); exact He1).
+      assert (L2 : s_log s2 = s_log s1) by (unfold s2; destruct (e_rising e); reflexivity).
+      assert (N2 : s_now s2 = s_now s1 /\ s_phase s2 = s_phase s1 /\ s_mt s2 = s_mt s1) by (unfold s2; destruct (e_rising e); repeat split).
+      destruct N2 as (N21 & N22 & N23).
+      assert (Q2 : s_queue s2 = s_queue s1) by (unfold s2; destruct (e_rising e); reflexivity).
+      destruct St0 as (S1 & S2 & S3 & S4 & S5 & S6 & S7 & S8).
+      inversion S1 as [[R1 R2 R3]].
+      assert (Regs : (r_a (s_circ s2), r_a2 (s_circ s2), r_b (s_circ s2)) = edge_regs two (e_pin e) (e_rising e) (s_log s1)).
+      { unfold s2, edge_regs. destruct (e_rising e); [|exact S1].
+        rewrite <- S1. unfold rg_a, rg_a2, rg_b. simpl fst. simpl snd.
+        destruct (e_pin e); simpl; rewrite ?S4, ?S5, ?S6; reflexivity. }
+      assert (Oth : pi_a (s_circ s2) = pi_a (s_circ s1) /\ pi_b (s_circ s2) = pi_b (s_circ s1) /\
+                    lat_ra (s_circ s2) = lat_ra (s_circ s1) /\ lat_rb (s_circ s2) = lat_rb (s_circ s1) /\
+                    lat_ra2 (s_circ s2) = lat_ra2 (s_circ s1) /\ c_out (s_circ s2) = c_out (s_circ s1)).
+      { unfold s2. destruct (e_rising e); [destruct (e_pin e)|]; repeat split. }
+      destruct Oth as (O1 & O2 & O3 & O4 & O5 & O6).
+      set (ent := LEdge (s_now s2) (e_pin e) (e_rising e) (r_a (s_circ s2)) (r_a2 (s_circ s2)) (r_b (s_circ s2))).
+      assert (L3 : s_log (add_log ent s2) = ent :: s_log s1) by (rewrite add_log_log, E2, L2; reflexivity).
+      assert (NR : ent <> LReeval) by discriminate.
+      constructor.
+      * intros x Hx. apply Sh1. rewrite <- Q2. destruct (add_log_bk ent s2) as (Qa & _). rewrite <- Qa. exact Hx.
+      * rewrite L3. simpl. split; [rewrite PL; exact Ilg|]. split; [exact Regs|].
+        intros w Hw Ww. destruct (S8 w Hw Ww) as (ro & pid & a & ->).
+        assert (Pd : s_phase s1 = DURING) by congruence.
+        rewrite N21, Pd. eexists _, _, _, _. reflexivity.
+      * intros _. unfold st_part. rewrite L3, add_log_circ.
+        rewrite (after_cons _ _ NR), (since_cons _ _ NR), (c_of_log_cons _ _ NR).
+        assert (PV : forall p, pinv p (ent :: s_log s1) = pinv p (s_log s1)) by (intro p; reflexivity).
+        rewrite !PV, O1, O2, O3, O4, O5, O6.
+        destruct (add_log_ctl ent s2) as (A1 & A2 & A3 & _). rewrite A1, A2, A3, N21, N22, N23.
+        repeat split; try assumption.
+        intros w [<-|Hw] Ww; [discriminate | apply S8; assumption].
+    + destruct She.
+  - (* end of micro tick *)
+    pose proof (halted_false_err s Hh) as He. specialize (Ist He).
+    destruct (micro_end_circ_log s He) as (Ci & fires & L & Ff).
+    constructor.
+    + intros x Hx. apply micro_end_queue in Hx. destruct Hx as [Hx|Hx]; [apply Ish; exact Hx|].
+      apply in_map_iff in Hx. destruct Hx as (w & <- & _). exact I.
+    + rewrite L. change (LMicro (s_now s) (s_phase s) (s_mt s) :: fires ++ LReeval :: s_log s)
+        with ((LMicro (s_now s) (s_phase s) (s_mt s) :: fires) ++ LReeval :: s_log s).
+      apply log_ok_plain_app; [|simpl; split; [exact Ilg | exact I]].
+      constructor; [exact I|]. eapply Forall_impl; [|exact Ff]. intros e (p & r & c & ->). exact I.
+    + intros _. destruct Ist as (S1 & S2 & S3 & S4 & S5 & S6 & S7 & S8).
+      assert (Pl : Forall plain (LMicro (s_now s) (s_phase s) (s_mt s) :: fires)).
+      { constructor; [split; [reflexivity | split; [discriminate | intros; discriminate]] | apply fires_plain; exact Ff]. }
+      destruct (plain_entries (LMicro (s_now s) (s_phase s) (s_mt s) :: fires) (LReeval :: s_log s) Pl) as (I1 & I2 & I3 & I4 & I5).
+      unfold st_part. rewrite L, Ci.
+      change (LMicro (s_now s) (s_phase s) (s_mt s) :: fires ++ LReeval :: s_log s)
+        with ((LMicro (s_now s) (s_phase s) (s_mt s) :: fires) ++ LReeval :: s_log s).
+      rewrite I1, !I2, I3, I4, I5.
+      inversion S1 as [[R1 R2 R3]].
+      simpl. unfold c_of_log. simpl. unfold rg_a. rewrite <- S1. simpl. rewrite <- S2, <- S3.
+      repeat split; try assumption; try reflexivity.
+      intros w Hw Ww. exfalso. rewrite app_nil_r in Hw. pose proof (proj1 (Forall_forall _ _) Pl w Hw) as (P1 & _). congruence.
+  - (* phase begin *)
+    pose proof (halted_false_err s Hh) as He. specialize (Ist He).
+    destruct (phase_begin_bk ph s) as (Q & _).
+    assert (L : s_log (phase_begin ph s) = [LPhase (s_now s) ph] ++ s_log s).
+    { unfold phase_begin. rewrite add_log_log. simpl. rewrite He. reflexivity. }
+    constructor.
+    + rewrite Q. exact Ish.
+    + rewrite L. simpl. split; [exact Ilg | exact I].
+    + intros _. eapply st_part_restamp; [exact Ist | exact L | | | exact Hnw].
+      * constructor; [|constructor]. split; [reflexivity | split; [discriminate | intros; discriminate]].
+      * unfold phase_begin. rewrite add_log_circ. reflexivity.
+  - (* commit begin *)
+    constructor; [exact Ish | exact Ilg | exact Ist].
+  - constructor; [exact Ish | exact Ilg | exact Ist].
+  - (* commit end *)
+    pose proof (halted_false_err s Hh) as He. specialize (Ist He).
+    destruct (commit_end_bk s) as (Q & _).
+    set (ent := LCommit (s_now s) (r_a (s_circ s)) (r_a2 (s_circ s)) (r_b (s_circ s)) (c_out (s_circ s))).
+    assert (L : s_log (commit_end s) = [ent] ++ s_log s).
+    { unfold commit_end. cbn [s_log set_readonly]. rewrite add_log_log, He. reflexivity. }
+    constructor.
+    + rewrite Q. exact Ish.
+    + rewrite L. simpl. split; [exact Ilg|]. destruct Ist as (S1 & _ & _ & _ & _ & _ & S7 & _). split; assumption.
+    + intros _. eapply (st_part_plain s _ [ent]); [exact Ist | exact L | | | ].
+      * constructor; [|constructor]. split; [reflexivity | split; [discriminate | intros; discriminate]].
+      * unfold commit_end. cbn [s_circ set_readonly]. apply add_log_circ.
+      * unfold commit_end. destruct (add_log_ctl ent s) as (A1 & A2 & A3 & _). repeat split; assumption.
+  - (* set time *)
+    pose proof (halted_false_err s Hh) as He. specialize (Ist He).
+    constructor; [exact Ish | exact Ilg |].
+    intros _. eapply (st_part_restamp s _ []); [exact Ist | reflexivity | constructor | reflexivity | exact Hnw].
+  - pose proof (halted_false_err s Hh) as He. specialize (Ist He).
+    constructor; [exact Ish | exact Ilg |].
+    intros _. eapply (st_part_restamp s _ []); [exact Ist | reflexivity | constructor | reflexivity | exact Hnw].
+  - constructor; [exact Ish | exact Ilg | exact Ist].
+  - constructor; [exact Ish | exact Ilg | exact Ist].
+  - (* fiber start *)
+    unfold fiber_start in Hfs.
+    assert (E' : s' = snd (fiber_continue pid (log_proc pid AStart s))) by (rewrite Hfs; reflexivity).
+    pose proof (fiber_continue_cont pid (log_proc pid AStart s)) as Cs. rewrite <- E' in Cs.
+    apply (inv3_effect two s s' IH0 Hh).
+    + eapply (quiet_one s s s' pid AStart); try apply same_lg_refl; try apply same_ctl_refl; try reflexivity;
+        [apply (cont_states_lg _ _ _ Cs) | apply (cont_states_circ _ _ _ Cs) | exact Hh | quiet_tac].
+    + eapply same_ctl_trans; [apply log_proc_ctl | apply (cont_states_ctl _ _ _ Cs)].
+    + destruct (cont_states_bk _ _ _ Cs) as (Q & _). rewrite Q. destruct (log_proc_bk pid AStart s) as (Q' & _). rewrite Q'. exact Ish.
+  - (* reevaluate *)
+    pose proof (halted_false_err s Hh) as He. specialize (Ist He).
+    destruct (reevaluate_bk s) as (Q & _).
+    assert (L : s_log (reevaluate s) = LReeval :: s_log s) by (unfold reevaluate; rewrite add_log_log; simpl; rewrite He; reflexivity).
+    assert (Ci : s_circ (reevaluate s) = circ_reeval (s_circ s)) by (unfold reevaluate; rewrite add_log_circ; reflexivity).
+    constructor.
+    + rewrite Q. exact Ish.
+    + rewrite L. simpl. split; [exact Ilg | exact I].
+    + intros _. destruct Ist as (S1 & S2 & S3 & S4 & S5 & S6 & S7 & S8).
+      unfold st_part. rewrite L, Ci. inversion S1 as [[R1 R2 R3]].
+      simpl. unfold c_of_log. simpl. unfold rg_a. rewrite <- S1. simpl. rewrite <- S2, <- S3.
+      repeat split; try assumption; try reflexivity. intros w [].
+Qed.
+
+End Inv.
+
+(* ------------------------------------------------------------------------- *)
+(** * Consequences for complete runs (the log of the final state, newest entry first) *)
+
+Lemma log_ok_suffix : forall two pre l, log_ok two (pre ++ l) -> log_ok two l.
+Proof. induction pre as [|e r IH]; intros l H; [exact H|]. simpl in H. apply IH. tauto. Qed.
+
+Lemma run_inv3 : forall cfg procs fiber until tb fuel, inv3 (c_two cfg) (run cfg procs fiber until tb fuel).
+Proof.
+  intros. destruct (run_reachable cfg procs fiber until tb fuel) as (stk & R).
+  exact (reach_inv3 cfg procs fiber tb _ R).
+Qed.
+
+(* what a read returns: the register values established by the most recent clock edge in the log, resp. the
+   combinational value of the most recent reevaluate() *)
+Lemma reads_see_last_edge_proof : forall cfg procs fiber until tb fuel pre t ph mt ro pid x v old,
+  s_log (run cfg procs fiber until tb fuel) = pre ++ LProc t ph mt ro pid (ARead x v) :: old ->
+  v = read_log x old.
+Proof.
+  intros cfg procs fiber upto tb fuel pre t ph mt ro pid x v old E.
+  pose proof (i3_log _ _ (run_inv3 cfg procs fiber upto tb fuel)) as L. rewrite E in L.
+  apply log_ok_suffix in L. simpl in L. tauto.
+Qed.
+
+(* what a clock flank does: on the activating (rising) flank every register of the clock's domain takes the value
+   its data input had at the last reevaluate() before the flank; all other registers keep their value; and every
+   pin write that has not been evaluated yet was made in phase DURING of this very instant *)
+Lemma edge_semantics_proof : forall cfg procs fiber until tb fuel pre t k rising ra ra2 rb old,
+  s_log (run cfg procs fiber until tb fuel) = pre ++ LEdge t k rising ra ra2 rb :: old ->
+  (ra, ra2, rb) = edge_regs (c_two cfg) k rising old /\
+  (forall w, In w (since_reeval old) -> is_write w = true -> exists mt ro pid a, w = LProc t DURING mt ro pid a).
+Proof.
+  intros cfg procs fiber upto tb fuel pre t k rising ra ra2 rb old E.
+  pose proof (i3_log _ _ (run_inv3 cfg procs fiber upto tb fuel)) as L. rewrite E in L.
+  apply log_ok_suffix in L. simpl in L. tauto.
+Qed.
+
+Lemma since_reeval_no_reeval : forall mid rest, ~ In LReeval mid -> since_reeval (mid ++ rest) = mid ++ since_reeval rest.
+Proof.
+  induction mid as [|e r IH]; intros rest H; [reflexivity|]. simpl app.
+  rewrite since_cons by (intro E; apply H; left; exact E). rewrite IH by (intro X; apply H; right; exact X). reflexivity.
+Qed.
+
+Lemma in_dec_reeval : forall l, In LReeval l \/ ~ In LReeval l.
+Proof.
+  induction l as [|e r [IH|IH]]; [right; intros [] | left; right; exact IH |].
+  destruct e; try (right; intros [X|X]; [discriminate | contradiction]). left. left. reflexivity.
+Qed.
+
+(* a pin write made in phase BEFORE (or AFTER) is followed by a reevaluate() before the next clock flank *)
+Lemma write_outside_during_evaluated_proof : forall cfg procs fiber until tb fuel pre t k rising ra ra2 rb mid tw phw mtw ro pid p v old,
+  s_log (run cfg procs fiber until tb fuel) = pre ++ LEdge t k rising ra ra2 rb :: mid ++ LProc tw phw mtw ro pid (AWrite p v) :: old ->
+  phw <> DURING -> In LReeval mid.
+Proof.
+  intros cfg procs fiber upto tb fuel pre t k rising ra ra2 rb mid tw phw mtw ro pid p v old E Hp.
+  destruct (edge_semantics_proof cfg procs fiber upto tb fuel pre t k rising ra ra2 rb _ E) as (_ & Ctx).
+  destruct (in_dec_reeval mid) as [Y|N]; [exact Y|]. exfalso.
+  rewrite since_reeval_no_reeval in Ctx by exact N.
+  destruct (Ctx (LProc tw phw mtw ro pid (AWrite p v))) as (mt' & ro' & pid' & a' & Eq); [|reflexivity|].
+  - apply in_or_app. right. simpl. left. reflexivity.
+  - inversion Eq. congruence.
+Qed.
+
+(* the log as of the last reevaluate(), when one lies within [mid] *)
+Lemma after_reeval_in_mid : forall mid rest, In LReeval mid ->
+  exists m1 m2, mid = m1 ++ LReeval :: m2 /\ after_reeval (mid ++ rest) = LReeval :: m2 ++ rest.
+Proof.
+  induction mid as [|e r IH]; intros rest H; [destruct H|].
+  destruct e; try (destruct H as [X|H]; [discriminate|];
+                   destruct (IH rest H) as (m1 & m2 & -> & A); eexists (_ :: m1), m2; split; [reflexivity | exact A]).
+  exists [], r. split; reflexivity.
+Qed.
+
+Lemma pinv_app_nowrite : forall p m rest, (forall t ph mt ro pid v, ~ In (LProc t ph mt ro pid (AWrite p v)) m) ->
+  pinv p (m ++ rest) = pinv p rest.
+Proof.
+  induction m as [|e r IH]; intros rest H; [reflexivity|]. simpl app.
+  assert (Hr : forall t ph mt ro pid v, ~ In (LProc t ph mt ro pid (AWrite p v)) r) by (intros; intro X; eapply H; right; exact X).
+  destruct e; simpl; try (apply IH; exact Hr). destruct a; try (apply IH; exact Hr).
+  destruct (pin_eqb p p0) eqn:Ep; [|apply IH; exact Hr].
+  exfalso. assert (p = p0) by (destruct p, p0; try discriminate; reflexivity). subst p0. eapply H. left. reflexivity.
+Qed.
+
+(* BEFORE: the value written is what the register holds after the edge (unless written again before the edge) *)
+Lemma before_write_captured_proof : forall cfg procs fiber until tb fuel pre t k ra ra2 rb mid tw mtw ro pid p v old,
+  s_log (run cfg procs fiber until tb fuel) = pre ++ LEdge t k true ra ra2 rb :: mid ++ LProc tw BEFORE mtw ro pid (AWrite p v) :: old ->
+  (forall t' ph' mt' ro' pid' v', ~ In (LProc t' ph' mt' ro' pid' (AWrite p v')) mid) ->
+  match p, k with
+  | PA, CA => ra = Some v
+  | PB, CB => c_two cfg = true -> rb = Some v
+  | PB, CA => c_two cfg = false -> rb = Some v
+  | PA, CB => True
+  end.
+Proof.
+  intros cfg procs fiber upto tb fuel pre t k ra ra2 rb mid tw mtw ro pid p v old E Nw.
+  pose proof (write_outside_during_evaluated_proof cfg procs fiber upto tb fuel pre t k true ra ra2 rb mid tw BEFORE mtw ro pid p v old E) as Hr.
+  specialize (Hr ltac:(discriminate)).
+  destruct (edge_semantics_proof cfg procs fiber upto tb fuel pre t k true ra ra2 rb _ E) as (Rg & _).
+  destruct (after_reeval_in_mid mid (LProc tw BEFORE mtw ro pid (AWrite p v) :: old) Hr) as (m1 & m2 & -> & A).
+  unfold edge_regs in Rg. rewrite A in Rg.
+  assert (Pv : pinv p (LReeval :: m2 ++ LProc tw BEFORE mtw ro pid (AWrite p v) :: old) = Some v).
+  { simpl. rewrite pinv_app_nowrite.
+    - simpl. destruct p; reflexivity.
+    - intros t' ph' mt' ro' pid' v' X. eapply Nw. apply in_or_app. right. right. exact X. }
+  destruct p, k; try exact I; inversion Rg; subst.
+  - exact Pv.
+  - intro T. rewrite T. exact Pv.
+  - intro T. rewrite T. exact Pv.
 Qed.
